@@ -10,20 +10,20 @@ LEVEL_TEXT = ("Lean 4 theorems for every tuple of operand arrays (0..n rows each
               "vector of per-row window bounds: the models of concatenate (rows: buffers + lengths; columns: row-wise append), "
               "zeros/ones_like, nonzero (flatnonzero + searchsorted-right inversion of the row geometry), where (flat where on a "
               "ragged mask), subset / boolean-mask indexing (filter + per-row true counts) , ragged_slice (window arithmetic + the "
-              "cumsum gather builder) and the padded-matrix conversion (clamped index matrix, gather, overwrite of the padding cells "
+              "cumsum gather builder; for ragged, 1-D and 2-D ndarray inputs) and the padded-matrix conversion (clamped index matrix, gather, overwrite of the padding cells "
               "found through a view of mostly empty rows) equal their list-of-rows meaning. Tied to the code by correspondence on "
               "exhaustive small shapes x all masks on <= 6 cells x all in-row windows, with distinct cells.")
-LEVEL_NOTE = ("Trusted: Lean kernel (+ standard axioms); hand models (tied by correspondence); ragged_slice on 1-D / 2-D ndarray inputs and "
-              "empty_like are correspondence-only; windows that start outside their row are outside the property.")
+LEVEL_NOTE = ("Trusted: Lean kernel (+ standard axioms); hand models (tied by correspondence); empty_like is "
+              "correspondence-only; windows that start outside their row are outside the property.")
 TECHNIQUE = "Lean 4 proof of structural functions = list-of-rows spec; model/implementation correspondence"
 DESIGN_REF = "7"
-LEAN_MODULES = ["NpsVerif.Props.C08A", "NpsVerif.Props.C08B"]
+LEAN_MODULES = ["NpsVerif.Props.C08A", "NpsVerif.Props.C08B", "NpsVerif.Props.C08C"]
 KERNELS = ()
 RULE = ("cases = function (concatenate axis 0 / -1, zeros/ones/empty_like, nonzero, where, subset, mask indexing, ragged_slice on "
         "ragged / 1-D / 2-D input, as_padded_matrix left/right) x operand shapes (exhaustive <=3x3 + random) x masks / windows x dtype; "
         "distinct = distinct (function, shapes, mask/window); non-trivial = at least one cell")
 EXHAUSTIVE = {"quick": False, "thorough": False}
-CORRESPONDENCE_ONLY = ["ragged_slice on 1-D / 2-D ndarray input", "empty_like (shape only)", "dtype tags"]
+CORRESPONDENCE_ONLY = ["empty_like (shape only)", "dtype tags"]
 ASSUMPTIONS = []
 
 FUNCS = ["concat_rows", "concat_cols", "like", "nonzero", "where", "subset", "mask_index", "ragged_slice", "padded", "ragged_slice_nd"]
@@ -80,14 +80,18 @@ def cases(rng, tier):
                 mask.append(bits[k:k + l]); k += l
             out.append({"f": rng.choice(["subset", "mask_index", "nonzero", "where"]), "lens": lens, "mask": mask, "y": "scalar", "dtype": "int64", "vseed": 1})
     # 1-D / 2-D inputs of ragged_slice
-    for _ in range(60 if tier == "quick" else 600):
+    for _ in range(300 if tier == "quick" else 3000):
         if rng.random() < 0.5:
             n = rng.randint(1, 8); k = rng.randint(1, 4)
             ss = [rng.randint(0, n) for _ in range(k)]; es = [rng.randint(s, n) for s in ss]
+            if rng.random() < 0.3:      # ends counted from the end of the array
+                es = [e - n if e < n else e for e in es]
             out.append({"f": "ragged_slice_nd", "nd": 1, "n": n, "starts": ss, "ends": es, "dtype": dt(), "vseed": rng.randint(0, 99)})
         else:
             r, c = rng.randint(1, 4), rng.randint(1, 5)
             ss = [rng.randint(0, c) for _ in range(r)]; es = [rng.randint(s, c) for s in ss]
+            if rng.random() < 0.3:
+                es = [e - c if e < c else e for e in es]
             out.append({"f": "ragged_slice_nd", "nd": 2, "r": r, "c": c, "starts": ss, "ends": es, "dtype": dt(), "vseed": rng.randint(0, 99)})
     return out
 
@@ -260,7 +264,12 @@ def lean_request(p):
                 rows.append(list(range(k, k + l))); k += l
             arrs.append(rows)
         return {"op": "C08.struct", "f": f, "arrays": arrs}
-    if f == "ragged_slice_nd" or (f == "like" and p["which"] == "empty"):
+    if f == "ragged_slice_nd":
+        if p["nd"] == 1:
+            return {"op": "C08.struct", "f": "ragged_slice_1d", "a": list(range(p["n"])), "starts": p["starts"], "ends": p["ends"]}
+        return {"op": "C08.struct", "f": "ragged_slice_2d", "rows": [list(range(i * p["c"], (i + 1) * p["c"])) for i in range(p["r"])],
+                "c": p["c"], "starts": p["starts"], "ends": p["ends"]}
+    if f == "like" and p["which"] == "empty":
         return None
     rows = gens.rows_of_ids(p["lens"])
     n = sum(p["lens"])
@@ -285,6 +294,8 @@ def decode_lean(p, resp):
     s = _setup(p)
     if f in ("concat_rows", "concat_cols"):
         pool = np.concatenate([v for v, _ in s]) if s else np.array([], dtype=dt)
+    elif f == "ragged_slice_nd":
+        pool = np.asarray(s).reshape(-1)
     else:
         pool = s
     def conv(j):
